@@ -409,17 +409,18 @@ func (dht *FullRT) runCrawler(ctx context.Context) {
 			newRt.Add(kadKey)
 		}
 
+		// Swap the three views of the crawl in one critical section (locks taken
+		// in the order readers take them), so that a reader holding all three read
+		// locks never pairs the trie of one crawl with the maps of another.
+		dht.rtLk.Lock()
+		dht.kMapLk.Lock()
 		dht.peerAddrsLk.Lock()
 		dht.peerAddrs = peerAddrs
-		dht.peerAddrsLk.Unlock()
-
-		dht.kMapLk.Lock()
 		dht.keyToPeerMap = kPeerMap
-		dht.kMapLk.Unlock()
-
-		dht.rtLk.Lock()
 		dht.rt = newRt
 		dht.lastCrawlTime = time.Now()
+		dht.peerAddrsLk.Unlock()
+		dht.kMapLk.Unlock()
 		dht.rtLk.Unlock()
 	}
 }
